@@ -5,6 +5,8 @@ use super::BytesStrategy;
 impl<T: BytesVecValue> RawStrategy<T> for BytesStrategy<T> {
     #[inline(always)]
     unsafe fn read_from_ptr(ptr: *const u8, byte_offset: usize) -> T {
+        #[cfg(anydb_verif)]
+        rawdb::verif_tap::emit(rawdb::verif_tap::Event::PtrRead { addr: (ptr as usize).wrapping_add(byte_offset), len: size_of::<T>() });
         unsafe {
             if T::IS_NATIVE_LAYOUT {
                 (ptr.add(byte_offset) as *const T).read_unaligned()
